@@ -5,6 +5,7 @@ mod capi;
 mod cks;
 mod comp;
 mod gen;
+mod huff;
 mod infl;
 mod reset;
 mod scn_dec;
@@ -66,6 +67,22 @@ fn scn_oneshot(o: &Opts, tr: &mut Tr) {
     for (lvl, n) in [(6u8, 30_000usize), (2, 60_000), (9, 20_000), (1, 50_000)] {
         let d = gen::data("fibo", n, &mut r);
         oneshot_case(tr, &format!("fibo-{}-l{}", n, lvl), "C01", &d, lvl, n % 20_000 == 0, "fibo");
+    }
+    // maximum-length code words back to back (literal clusters, matches with deep distance codes)
+    for (i, (kind, lvl, n)) in [("deep15", 6u8, 30_000usize), ("deepdist", 6, 60_000)].iter().enumerate() {
+        let d = gen::data(kind, *n, &mut r);
+        oneshot_case(tr, &format!("{}-{}-l{}", kind, n, lvl), "C01", &d, *lvl, i % 2 == 0, kind);
+    }
+    for i in 0..(if o.thorough { 2500 } else { 320 }) {
+        let kind = if i % 4 == 3 { "deepdist" } else { "deep15" };
+        let n = if kind == "deepdist" { r.gen_range(40_000..70_000) } else { r.gen_range(20_000..66_000) };
+        let lvl = [1u8, 2, 4, 6, 9, 10][i % 6];
+        let d = gen::data(kind, n, &mut r);
+        let zl = i % 2 == 0;
+        if oneshot_suspicious(&d, lvl, zl) && tr.take_suspicious_slot() {
+            oneshot_case(tr, &format!("bulkd-{}-{}-{}-l{}-{}", i, kind, n, lvl, zl), "C01", &d, lvl, zl, kind);
+        }
+        tr.bulk_run += 1;
     }
     let kinds = ["text", "rand", "alpha4", "zeros", "period7", "runs", "planted300", "mixed", "xx"];
     for (ki, kind) in kinds.iter().enumerate() {
@@ -308,6 +325,7 @@ fn main() {
     tr.only = o.only.clone();
     match name.as_str() {
         "oneshot" => scn_oneshot(&o, &mut tr),
+        "huff" => huff::scn_huff(&o, &mut tr, "C10"),
         "configs_c10" => scn_configs(&o, &mut tr, "C10"),
         "configs_c11" => scn_configs(&o, &mut tr, "C11"),
         "configs_c09" => scn_configs(&o, &mut tr, "C09"),
@@ -348,7 +366,8 @@ fn main() {
 fn bulk_streamcomp(o: &Opts, tr: &mut Tr, prop: &str, r: &mut rand::rngs::StdRng, n_quick: usize, n_thorough: usize) {
     let nbulk = if o.thorough { n_thorough } else { n_quick };
     for bi in 0..nbulk {
-        let kind = ["litmatch", "lazycut", "mixed", "text", "sparse3", "alpha4", "runs", "period3", "zeros", "wrapruns", "lazycut"][bi % 11];
+        let kind = ["litmatch", "lazycut", "mixed", "text", "sparse3", "alpha4", "runs", "period3", "zeros", "wrapruns", "lazycut",
+                    "deep15", "deepdist"][bi % 13];
         let size = [60_000usize, 130_000, 200_000, 90_000, 32_768, 65_536, 33_000][bi % 7] + r.gen_range(0..5000) * (bi % 3);
         let data = gen::data(kind, size, r);
         let lvl = [4u8, 5, 6, 7, 8, 9, 10, 1, 2, 3, 0][bi % 11];
